@@ -138,6 +138,8 @@ pub fn status_code(s: GameStatus) -> u8 {
         GameStatus::Won => 0,
         GameStatus::Drawn => 1,
         GameStatus::Ongoing => 2,
+        #[allow(unreachable_patterns)]
+        _ => 3,
     }
 }
 
@@ -151,6 +153,9 @@ pub fn fen_err_name(e: &FenParseError) -> &'static str {
         FenParseError::InvalidFullmoveNumber => "InvalidFullmoveNumber",
         FenParseError::MissingField => "MissingField",
         FenParseError::TooManyFields => "TooManyFields",
+        // a patch may add a variant: the simulator must still build
+        #[allow(unreachable_patterns)]
+        _ => "OtherFenParseError",
     }
 }
 
@@ -161,6 +166,8 @@ pub fn builder_err_name(e: &BoardBuilderError) -> &'static str {
         BoardBuilderError::InvalidEnPassant => "InvalidEnPassant",
         BoardBuilderError::InvalidHalfMoveClock => "InvalidHalfMoveClock",
         BoardBuilderError::InvalidFullmoveNumber => "InvalidFullmoveNumber",
+        #[allow(unreachable_patterns)]
+        _ => "OtherBoardBuilderError",
     }
 }
 
